@@ -116,6 +116,12 @@ def expand_real(cases, repeat=0, exe=None):
                 break
             if l.strip():
                 r = json.loads(l)
+                if isinstance(r.get("items"), dict):
+                    # the macro returned tokens that are not a sequence of items (rustc: "proc-macro derive produced
+                    # unparsable tokens"): not an accepted expansion
+                    r["outcome"] = "unparsable"
+                    r["message"] = "the expansion is not parsable as items: " + str(r["items"].get("reparse_error"))
+                    r["items"] = []
                 out[r["id"]] = r
                 done += 1
         if done == len(pending):
